@@ -324,17 +324,34 @@ impl Engine {
         let mut pid = child.id();
         if opts.strace_write_delay_us.is_some() || opts.strace_read_fail_from.is_some() || (opts.ptdelay.is_some() && !opts.valgrind && ptdelay_tool(bin).is_some()) {
             // the engine is strace's (ptdelay's) child: /proc verdicts must look at the engine itself
-            let t_end = Instant::now() + Duration::from_secs(2);
+            // Everything that looks at the engine through /proc (is the search thread gone? does the
+            // process spin?) needs the engine's own pid. Going on with the wrapper's pid would make
+            // `thread_count` say "one thread" for ever, a go would be taken for settled while the
+            // search thread can still print, and its late line would be judged as a line of the next
+            // go (seen once on a machine loaded three times over: a false alarm of C18). So: wait
+            // long enough, and give the session up if the engine cannot be found.
+            let t_end = Instant::now() + Duration::from_secs(15);
+            let mut found = false;
             loop {
                 let kids = std::fs::read_to_string(format!("/proc/{}/task/{}/children", child.id(), child.id())).unwrap_or_default();
                 if let Some(k) = kids.split_whitespace().next().and_then(|k| k.parse::<u32>().ok()) {
-                    pid = k;
-                    break;
+                    // the child of the wrapper must already BE the engine (after its exec)
+                    let exe = std::fs::read_link(format!("/proc/{}/exe", k)).unwrap_or_default();
+                    if exe == bin || exe.file_name() == bin.file_name() {
+                        pid = k;
+                        found = true;
+                        break;
+                    }
                 }
-                if Instant::now() > t_end {
+                if Instant::now() > t_end || matches!(child.try_wait(), Ok(Some(_))) {
                     break;
                 }
                 std::thread::sleep(Duration::from_millis(2));
+            }
+            if !found {
+                let _ = child.kill();
+                let _ = child.wait();
+                return Err("the engine process under the tracing wrapper could not be identified".into());
             }
         }
         let stdin = child.stdin.take();
